@@ -217,7 +217,10 @@ impl ClnRpc for Rpc {
         let hh = hash.clone().map(hex::encode).unwrap_or_default();
         match self.call(hash, q).await {
             Reply::Parts(l) => {
-                let ps: Vec<Value> = l.iter().map(|(g, p)| json!({"status": "pending", "amount_sent_msat": 1, "created_at": 1, "groupid": g, "partid": p, "id": 1, "payment_hash": hh})).collect();
+                let ps: Vec<Value> = l.iter().map(|(g, p)| {
+                    let mut v = json!({"status": "pending", "amount_sent_msat": 1, "created_at": 1, "groupid": g, "id": 1, "payment_hash": hh});
+                    if *p != 0 { v["partid"] = json!(p); }      // as lightningd does for an unsplit payment
+                    v }).collect();
                 Ok(serde_json::from_value(json!({"payments": ps})).unwrap())
             }
             Reply::Pres(l) => {
@@ -248,7 +251,8 @@ impl ClnRpc for Rpc {
     async fn waitsendpay(&self, r: WaitsendpayRequest) -> Result<WaitsendpayResponse, RpcError> {
         let hash = Some(AsRef::<[u8]>::as_ref(&r.payment_hash).to_vec());
         let hh = hex::encode(AsRef::<[u8]>::as_ref(&r.payment_hash));
-        let q = Q::WaitPart { groupid: r.groupid, partid: r.partid, timeout: r.timeout };
+        // lightningd: an absent partid means part 0 (and it leaves partid out of listsendpays when it is 0)
+        let q = Q::WaitPart { groupid: r.groupid, partid: Some(r.partid.unwrap_or(0)), timeout: r.timeout };
         match self.call(hash, q).await {
             Reply::Pre(p) => Ok(serde_json::from_value(json!({"status": "complete", "amount_sent_msat": 1, "created_at": 1, "id": 1, "payment_hash": hh, "payment_preimage": hex::encode(p)})).unwrap()),
             Reply::PartFailed(c) => Err(to_err(ErrKind::Code(c))),
